@@ -55,6 +55,10 @@ class C09(ProgProp):
                 failed.append(f'{op}: prototype locator modified {fac["proto_keys"]}')
             if fac['comp_extra'] != str(extra):
                 failed.append(f'{op}: component locator lost/gained the user service')
+            # the component's locator holds exactly the prototype's services plus (create) the two fresh facilities
+            want_keys = nkeys + 2 if origin == 'create' else nkeys
+            if 'comp_keys' in fac and int(fac['comp_keys']) != want_keys:
+                failed.append(f'{op}: the locator handed to the component holds {fac["comp_keys"]} services, not {want_keys}')
             if origin == 'create':
                 want_f = {'comp_loc': 'other', 'comp_pump': 'other', 'comp_runtime': 'other', 'has_locator': '1',
                           'locator_is_comp_loc': '1'}
